@@ -256,6 +256,20 @@ fn u9_arb_choose_index_onto() {
     let mut src = GenerationSource::Arbitrary(&mut u);
     assert!(src.choose_index(n) == t, "[C12] an alternative cannot be selected by any fuzzer input");
 }
+/// the same for gen_range(0, n): a maintainer may well draw the candidate index with it instead of choose_index
+#[kani::proof]
+#[kani::unwind(10)]
+fn u9_arb_gen_range_onto() {
+    let n: usize = kani::any();
+    kani::assume(n >= 1 && n <= 65536);
+    let t: usize = kani::any();
+    kani::assume(t < n);
+    let two = [(t >> 8) as u8, (t & 0xff) as u8];
+    let one = [t as u8];
+    let mut u = if n - 1 >= 256 { Unstructured::new(&two) } else { Unstructured::new(&one) };
+    let mut src = GenerationSource::Arbitrary(&mut u);
+    assert!(src.gen_range(0, n) == t, "[C12] an alternative cannot be selected by any fuzzer input");
+}
 /// gen_bool takes both values (framed and unframed pickles for protocol >= 4)
 #[kani::proof]
 #[kani::unwind(10)]
